@@ -147,6 +147,24 @@ theorem name_length_defined (enc : Encoding) (s : List Nat) (bytes : Bytes)
     | nil => simp [encodeString] at hw; subst hw; rfl
     | cons c r => simp [encodeString] at hw
 
+/-- **Validated name strings compile**: whenever `validate_string_data` accepts a record's string, neither the string
+writer nor `compute_length` panics, and the length field is the number of bytes written (which fits 16 bits). -/
+theorem name_validated_no_panic (enc : Encoding) (s : List Nat) (hv : validateString enc s = true) :
+    ∃ bytes, encodeString enc s = some bytes ∧ computeLength enc s = some bytes.length ∧ bytes.length < 65536 := by
+  cases enc with
+  | unknown => simp [validateString] at hv
+  | utf16be =>
+    simp only [validateString, decide_eq_true_eq] at hv
+    have hfit : (s.flatMap charBytes).length < 65536 := by
+      rw [utf16_bytes_length, sum_len_double]; omega
+    exact ⟨_, encodeString_utf16 s, name_length_defined .utf16be s _ (encodeString_utf16 s) hfit, hfit⟩
+  | macRoman =>
+    simp only [validateString, Bool.and_eq_true, decide_eq_true_eq] at hv
+    obtain ⟨bs, hb⟩ := mapM_macEncode_some s hv.2
+    have hl := (mapM_macEncode s bs hb).1
+    have hfit : bs.length < 65536 := by omega
+    exact ⟨bs, hb, name_length_defined .macRoman s bs hb hfit, hfit⟩
+
 /-- **Name strings read back**: for the two real encodings, every string of Unicode scalar values the writer can encode
 decodes (`CharIter`, i.e. the `FromObjRef<NameString> for String` conversion) to the string that was written. -/
 theorem name_string_roundtrip (enc : Encoding) (s : List Nat) (bytes : Bytes) (henc : enc ≠ .unknown)
